@@ -10,6 +10,8 @@ from sa.guards import GuardView, atom_of, names_in
 from sa.index import own_nodes
 from sa.report import Ctx
 
+from .common import generic_sweeps
+
 EXPLANATION = (
     "Decides structural necessary conditions of the LP verdict contract: (O1) error discipline - every call whose "
     "callee returns a Status at a fixed tuple position has that status read before its holder dies (the phase-1 "
@@ -32,6 +34,7 @@ def run(ctx: Ctx):
     check_interior(ctx)
     check_sign_units(ctx, "simplex", "solve_lp", ["_extract"])
     check_sign_units(ctx, "interior_point", "solve_lp_interior", [])
+    generic_sweeps(ctx)
 
 
 def check_status_use(ctx: Ctx, modules=("simplex", "interior_point")):
